@@ -206,7 +206,8 @@ class Gen:
 
     @staticmethod
     def ch(i):
-        return 'c%02d' % i
+        """channel name of the channel number i; i // 100 selects an alias prefix (names sort as a < c < k < z)"""
+        return '%s%02d' % ('ckaz'[i // 100], i % 100)
 
     def known(self, e):
         """decimal value of an expression if all its variables have known values"""
@@ -320,8 +321,85 @@ class Gen:
                 decl = copy.deepcopy(d)
         return {'t': 'multi', 'subs': subs, 'declared': decl}
 
+    def inner_channels(self, chans):
+        """-> (channels of the body, channel mapping of the MappingPT or None): renamings that change the sort order,
+        exchanges of two names, an additional channel that is dropped"""
+        rng = self.rng
+        r = rng.random()
+        if r < 0.45:
+            return list(chans), (None if rng.random() < 0.7 else {})
+        inner = list(chans)
+        if r < 0.6 and len(chans) >= 2:            # exchange two names
+            i, j = rng.sample(range(len(chans)), 2)
+            inner[i], inner[j] = inner[j], inner[i]
+        else:
+            inner = [c if rng.random() < 0.3 else c % 100 + 100 * rng.choice([0, 1, 2, 3]) for c in chans]
+            if len(set(inner)) < len(inner):
+                inner = list(chans)
+        cm = {self.ch(i): self.ch(o) for i, o in zip(inner, chans) if i != o or rng.random() < 0.3}
+        if rng.random() < 0.45:                    # one more channel inside, dropped by the mapping
+            extra = rng.choice([x for x in (7, 107, 207, 307, 5, 205) if x not in inner and x not in chans])
+            inner.insert(rng.randrange(len(inner) + 1), extra)
+            cm[self.ch(extra)] = None
+        return inner, cm
+
+    def remapped(self, scope, chans, depth, atomic, dur=None, force=None):
+        """MappingPT whose parameter mapping re-uses the names of the parameters it maps (the right hand sides are
+        read in the outer scope): exchange of two names, cyclic permutation, chained re-use, a name mapped to an
+        expression of itself; the body is generated with the values the names have INSIDE"""
+        rng = self.rng
+        names = list(scope['times'])
+        while len(names) < 3:
+            x = self.new_param('t', F(rng.choice(TIME_DECIMALS)))
+            scope['times'].append(x)
+            names.append(x)
+        shape = rng.choice(['swap', 'swap', 'cycle', 'chain', 'self', 'self_other', 'shadow'])
+        a, b, c = rng.sample(names, 3)
+        if shape == 'swap':
+            m = {a: var(b), b: var(a)}
+        elif shape == 'cycle':
+            m = {a: var(b), b: var(c), c: var(a)}
+        elif shape == 'chain':
+            m = {a: op('add', var(b), lit(1)), b: op('mul', var(a), lit(2))}
+        elif shape == 'self':
+            m = {a: op('mul', var(a), lit(rng.choice([2, 3])))}
+        elif shape == 'self_other':
+            m = {a: op('add', var(a), var(b)), b: var(b)}
+        else:                                       # one name takes the value of another one, which stays visible
+            m = {a: var(b)}
+        if dur is not None and atomic:
+            # the body must last `dur` (seen from outside): map a fresh inner name to it as well
+            x = self.fresh('m')
+            m[x] = dur
+        outer_vals = dict(self.vals)
+        inner_vals = {k: self.known(e) for k, e in m.items()}
+        self.vals.update(inner_vals)
+        inner_scope = {'times': list(scope['times']) + ([x] if dur is not None and atomic else []), 'idx': list(scope['idx'])}
+        ich, cm = self.inner_channels(chans)
+        try:
+            if atomic:
+                body = self.atomic(inner_scope, ich, depth, dur=var(x) if dur is not None else None, force=force)
+            else:
+                # make sure the exchanged names occur with different weights
+                first = {'t': 'seq', 'subs': [
+                    {'t': 'const', 'd': var(a), 'v': self.volts(ich)},
+                    {'t': 'rep', 'count': lit(rng.choice([2, 3])), 'body': {'t': 'const', 'd': var(b), 'v': self.volts(ich)}}]}
+                body = {'t': 'seq', 'subs': [first, self.tree(inner_scope, ich, depth, force=force)]}
+        finally:
+            for k in inner_vals:
+                if k in outer_vals:
+                    self.vals[k] = outer_vals[k]
+        used = free_params(body)
+        m = {k: e for k, e in m.items() if k in used}       # MappingPT rejects mappings of names the body does not have
+        out = {'t': 'map', 'm': m, 'body': body}
+        if cm is not None:
+            out['cm'] = cm
+        return out
+
     def mapped(self, scope, chans, depth, atomic, dur=None, force=None):
         rng = self.rng
+        if rng.random() < 0.4:
+            return self.remapped(scope, chans, depth, atomic, dur=dur, force=force)
         kind = rng.choice(['time', 'time', 'count'])
         if atomic or dur is not None:
             kind = 'time'
@@ -334,11 +412,15 @@ class Gen:
                 e = op('add', var(self.new_param('n', F(e['lit']), 'int')), lit(0)) if rng.random() < 0.3 else e
         self.vals[x] = self.known(e)
         inner_scope = {'times': list(scope['times']) + ([x] if kind == 'time' else []), 'idx': list(scope['idx'])}
+        ich, cm = self.inner_channels(chans)
         if atomic:
-            body = self.atomic(inner_scope, chans, depth, dur=var(x))
+            body = self.atomic(inner_scope, ich, depth, dur=var(x))
         else:
-            body = self.tree(inner_scope, chans, depth, force=(kind, x))
-        return {'t': 'map', 'm': {x: e}, 'body': body}
+            body = self.tree(inner_scope, ich, depth, force=(kind, x))
+        out = {'t': 'map', 'm': {x: e}, 'body': body}
+        if cm is not None:
+            out['cm'] = cm
+        return out
 
     # ---- composite
     def meas(self, scope):
@@ -400,8 +482,10 @@ class Gen:
         if r < 0.4:
             n = rng.choice([1, 2, 2, 3])
             k = rng.randrange(n)
-            return {'t': 'seq', 'subs': [self.tree(scope, chans, depth - 1, force=force if i == k else None)
-                                         for i in range(n)]}
+            subs = [self.tree(scope, chans, depth - 1, force=force if i == k else None) for i in range(n)]
+            if rng.random() < 0.15:          # the same sub-template twice (one object when the case is built with aliasing)
+                subs.insert(rng.randrange(len(subs) + 1), copy.deepcopy(rng.choice(subs)))
+            return {'t': 'seq', 'subs': subs}
         if r < 0.58:
             if force is not None and force[0] == 'count' and rng.random() < 0.5:
                 return {'t': 'rep', 'count': var(force[1]), 'body': self.tree(scope, chans, depth - 1)}
@@ -416,6 +500,16 @@ class Gen:
                                              self.tree(inner, chans, depth - 1, force=force)]}
             else:
                 body = self.tree(inner, chans, depth - 1, force=('count', idx))
+            r2 = rng.random()
+            if r2 < 0.2 and idx in free_params(body):
+                # the loop index is rebound between the loop and its body (to an expression of itself)
+                e = rng.choice([op('add', var(idx), lit(1)), op('mul', var(idx), lit(2)), op('sub', lit(6), var(idx))])
+                body = {'t': 'map', 'm': {idx: e}, 'body': body}
+            elif r2 < 0.3 and scope['times']:
+                # a parameter that is also used outside of the loop carries the name of the loop index
+                other = rng.choice(scope['times'])
+                body = rename_var(body, idx, other)
+                idx = other
             return {'t': 'for', 'idx': idx, 'start': a, 'stop': b, 'step': s, 'body': body}
         if r < 0.86:
             return self.mapped(scope, chans, depth - 1, atomic=False, force=force)
@@ -424,11 +518,34 @@ class Gen:
         return {'t': 'wrap', 'body': self.tree(scope, chans, depth - 1, force=force)}
 
 
+def rename_var(t, old, new):
+    """the JSON tree with the name `old` replaced by `new` in every expression and binder"""
+    if isinstance(t, dict):
+        if set(t) == {'var'}:
+            return {'var': new if t['var'] == old else t['var']}
+        out = {}
+        for k, v in t.items():
+            if k == 'm':
+                out[k] = {(new if x == old else x): rename_var(e, old, new) for x, e in v.items()}
+            elif k == 'idx':
+                out[k] = new if v == old else v
+            elif k == 'meas':
+                out[k] = [[(new if x == old else x) for x in m] for m in v]
+            else:
+                out[k] = rename_var(v, old, new)
+        return out
+    if isinstance(t, list):
+        return [rename_var(x, old, new) for x in t]
+    return t
+
+
 def gen_template_case(rng, tier, style, depth):
     g = Gen(rng, style, tier)
     nch = rng.choice([1, 1, 2, 2, 3])
     tpl = g.tree({'times': [], 'idx': []}, list(range(nch)), depth)
     case = {'kind': 'tpl', 'style': style, 'tpl': tpl, 'params': g.params}
+    if rng.random() < 0.3 and 'single' not in kinds_of(tpl, set()):
+        case['alias'] = True            # equal sub-templates are one Python object
     decorate(case, rng)
     if rng.random() < 0.04 and g.params:
         used = sorted(free_params(tpl))
@@ -443,9 +560,18 @@ def decorate(case, rng):
     tpl = case['tpl']
     if rng.random() < 0.2:
         chans = sorted(channels_of(tpl))
-        case['rootmap'] = {c: 'k' + c[1:] for c in chans}
+        case['rootmap'] = {c: 'r' + c for c in chans}
+        if len(chans) >= 2 and rng.random() < 0.3:
+            case['rootmap'][rng.choice(chans)] = None
         if rng.random() < 0.5:
-            case['cpmap'] = {'k' + c[1:]: 'z' + c[1:] for c in chans}
+            kept = [c for c in chans if case['rootmap'][c] is not None]
+            case['cpmap'] = {'r' + c: rng.choice(['z', 'a']) + c for c in kept}
+            if len(kept) >= 2 and rng.random() < 0.3:
+                case['cpmap']['r' + rng.choice(kept)] = None
+    elif rng.random() < 0.1:
+        chans = sorted(channels_of(tpl))
+        if len(chans) >= 2:
+            case['cpmap'] = {rng.choice(chans): None}
         case['measmap'] = rng.choice([{'m': 'mm'}, {'m': None}, {'n': 'm2', 'm': 'm1'}])
     if rng.random() < 0.25 and 'single' not in kinds_of(tpl, set()):
         cnt, other = set(), set()
@@ -634,8 +760,113 @@ def gen_frac_case(rng):
     return {'kind': 'tpl', 'style': 'exact', 'tpl': tpl, 'params': params, 'family': 'frac'}
 
 
+def gen_remap_cases(tier):
+    """deterministic: parameter mappings that re-use the names they map.  Inner template: a + w*b (+ c) with weight w;
+    mappings: exchange, 3-cycle, chained, name mapped to an expression of itself, nested mappings (flattened by the
+    MappingPT constructor), each also under a repetition / for-loop / as one waveform"""
+    cases = []
+    c0 = lambda e, v=1: {'t': 'const', 'd': e, 'v': {'c00': v}}
+    vals = [('3', '5', '7'), ('0.1', '0.3', '2'), ('1.5', '1.5', '4')]
+    maps = [
+        {'a': var('b'), 'b': var('a')},
+        {'a': var('b'), 'b': var('c'), 'c': var('a')},
+        {'a': op('add', var('b'), lit(1)), 'b': op('mul', var('a'), lit(2))},
+        {'a': op('add', var('b'), lit(1)), 'b': {'op': 'divk', 'a': var('a'), 'k': 2}},
+        {'a': op('mul', var('a'), lit(2))},
+        {'a': op('add', var('a'), var('b'))},
+        {'b': var('a')},
+        {'a': var('b'), 'b': var('b')},
+        {'a': var('c'), 'c': op('add', var('a'), var('b'))},
+    ]
+    k = 0
+    for va, vb, vc in vals if tier == 'thorough' else vals[:2]:
+        for w in (2, 3):
+            inner = {'t': 'seq', 'subs': [c0(var('a')), {'t': 'rep', 'count': lit(w), 'body': c0(var('b'), 2)}, c0(var('c'), 0)]}
+            for m in maps:
+                for style in ('time', 'float') if tier == 'thorough' else ('time',):
+                    k += 1
+                    params = {'a': tparam(va, style), 'b': tparam(vb, style), 'c': tparam(vc, 'time')}
+                    tpl = {'t': 'map', 'm': copy.deepcopy(m), 'body': copy.deepcopy(inner)}
+                    shape = k % 6
+                    if shape == 1:
+                        tpl = {'t': 'rep', 'count': var('n_1'), 'body': tpl}
+                        params['n_1'] = tparam('3', 'int')
+                    elif shape == 2:      # a second mapping around the first one (the constructor flattens them)
+                        fp = free_params(tpl)
+                        tpl = {'t': 'map', 'm': {x: e for x, e in (('a', var('b')), ('b', var('a'))) if x in fp}, 'body': tpl}
+                    elif shape == 3:
+                        tpl = {'t': 'for', 'idx': 'i_1', 'start': lit(0), 'stop': lit(3), 'step': lit(1),
+                               'body': {'t': 'seq', 'subs': [tpl, {'t': 'rep', 'count': var('i_1'), 'body': c0(var('a'))}]}}
+                    elif shape == 4:
+                        tpl = {'t': 'single', 'body': {'t': 'seq', 'subs': [tpl, c0(var('a'))]}}
+                    elif shape == 5:      # constraint on the mapping template itself: seen with the OUTER values
+                        tpl = {'t': 'constr', 'cs': [[var('a'), op('add', var('a'), lit(1))]], 'body': tpl}
+                    cases.append({'kind': 'tpl', 'style': 'exact' if style == 'time' else 'float', 'tpl': tpl,
+                                  'params': params, 'family': 'remap'})
+    # the loop index rebound between loop and body / named like an outer parameter
+    for e in (op('add', var('i'), lit(1)), op('mul', var('i'), lit(2)), op('sub', lit(4), var('i'))):
+        for rg in ((0, 3, 1), (4, 0, -2), (1, 1, 1)):
+            body = {'t': 'map', 'm': {'i': e}, 'body': {'t': 'seq', 'subs': [c0(op('mul', var('i'), var('a'))),
+                                                                            {'t': 'rep', 'count': var('i'), 'body': c0(var('a'))}]}}
+            tpl = {'t': 'seq', 'subs': [{'t': 'for', 'idx': 'i', 'start': lit(rg[0]), 'stop': lit(rg[1]), 'step': lit(rg[2]), 'body': body},
+                                        c0(var('a'))]}
+            cases.append({'kind': 'tpl', 'style': 'exact', 'tpl': tpl, 'params': {'a': tparam('0.5', 'time'), 'i': tparam('100', 'int')},
+                          'family': 'remap'})
+    return cases
+
+
+def gen_drop_cases(tier):
+    """deterministic: tables / point pulses / constants / parallel compositions with two or three channels whose last
+    entry times differ; every single channel in turn (the longest one, a shorter one) and pairs of channels are dropped
+    or renamed, by a MappingPT, by the root mapping and by create_program(channel_mapping=...)"""
+    cases = []
+    tab = lambda ts: {'t': 'table', 'chans': {c: [lit(0), var(x)] for c, x in ts.items()},
+                      'v': {c: [0, 1] for c in ts}, 'interp': {c: ['hold', 'linear'] for c in ts}}
+    late = lambda ts: {'t': 'table', 'chans': {c: [var(x)] for c, x in ts.items()},      # first entry later than 0
+                       'v': {c: [1] for c in ts}, 'interp': {c: ['hold'] for c in ts}}
+    vals = [{'tx': '3', 'ty': '5', 'tz': '4'}, {'tx': '5', 'ty': '3', 'tz': '0.5'}, {'tx': '2.5', 'ty': '2.5', 'tz': '7'}]
+    k = 0
+    for vs in vals if tier == 'thorough' else vals[:2]:
+        for nch in (2, 3):
+            chs = ['c00', 'c01', 'c02'][:nch]
+            ts = dict(zip(chs, ['tx', 'ty', 'tz']))
+            atoms = [tab(ts), late(ts),
+                     {'t': 'multi', 'subs': [tab({c: ts[c]}) if i else {'t': 'const', 'd': var(ts[c]), 'v': {c: 1}}
+                                             for i, c in enumerate(chs)], 'declared': None},
+                     {'t': 'const', 'd': var('tx'), 'v': {c: 1 for c in chs}},
+                     {'t': 'point', 'times': [lit(0), var('ty')], 'ch': chs, 'v': [0, 1]}]
+            drops = [{c: None} for c in chs] + [{chs[0]: None, chs[-1]: 'k00'}, {chs[0]: chs[1], chs[1]: chs[0]},
+                                                 {chs[0]: 'z00'}, {c: None for c in chs[:-1]}, {}]
+            for atom in atoms:
+                for cm in drops:
+                    k += 1
+                    if tier == 'quick' and k % 3 and cm != {max(chs, key=lambda c: F(vs[ts[c]])): None}:
+                        continue
+                    params = {x: tparam(v, 'time') for x, v in vs.items() if x in ts.values()}
+                    case = {'kind': 'tpl', 'style': 'exact', 'params': params, 'family': 'drop'}
+                    how = k % 4
+                    tpl = copy.deepcopy(atom)
+                    if how == 0:
+                        case['cpmap'] = dict(cm)
+                    elif how == 1:
+                        tpl = {'t': 'map', 'm': {}, 'cm': dict(cm), 'body': tpl}
+                    elif how == 2:
+                        tpl = {'t': 'map', 'm': {}, 'cm': dict(cm), 'body': tpl}
+                        tpl = {'t': 'rep', 'count': lit(4), 'body': {'t': 'seq', 'subs': [tpl, copy.deepcopy(tpl)]}}
+                        case['alias'] = True
+                    else:
+                        case['rootmap'] = {c: cm.get(c, c) for c in chs}
+                        if len(set(v for v in case['rootmap'].values() if v is not None)) < sum(v is not None for v in case['rootmap'].values()):
+                            case['rootmap'] = dict(cm)
+                    case['tpl'] = tpl
+                    cases.append(case)
+    return cases
+
+
 def gen_cases(rng, tier, ctx):
     cases = []
+    cases.extend(gen_remap_cases(tier))
+    cases.extend(gen_drop_cases(tier))
     # real ForLoopPT over a box of ranges (exhaustive in thorough)
     k = 0
     for a in range(-4, 5):
@@ -704,9 +935,20 @@ def expr_arg(e):
     return expr_str(e)
 
 
-def build(t, singles=None, constraints=None):
+def build(t, singles=None, constraints=None, memo=None):
     """the qupulse template of a JSON tree; `singles` collects the templates to be rendered as one waveform;
-    `constraints` are attached to this node (its class must take parameter_constraints)"""
+    `constraints` are attached to this node (its class must take parameter_constraints); memo (aliasing): equal JSON
+    sub-trees become one and the same Python object"""
+    if memo is not None and not constraints:
+        import json
+        key = json.dumps(t, sort_keys=True)
+        if key not in memo:
+            memo[key] = build0(t, singles, constraints, memo)
+        return memo[key]
+    return build0(t, singles, constraints, memo)
+
+
+def build0(t, singles=None, constraints=None, memo=None):
     from qupulse.pulses import (ConstantPT, FunctionPT, TablePT, PointPT, SequencePT, RepetitionPT, ForLoopPT, MappingPT,
                                 AtomicMultiChannelPT, TimeReversalPT)
     from qupulse.pulses.arithmetic_pulse_template import ArithmeticAtomicPulseTemplate, ArithmeticPulseTemplate
@@ -718,7 +960,7 @@ def build(t, singles=None, constraints=None):
         kw['measurements'] = [tuple(m) for m in t['meas']]
     if constraints:
         kw['parameter_constraints'] = list(constraints)
-    sub = lambda c: build(c, singles)
+    sub = lambda c: build(c, singles, memo=memo)
     if k == 'const':
         assert not constraints
         return ConstantPT(expr_arg(t['d']), dict(t['v']), **kw)
@@ -736,6 +978,8 @@ def build(t, singles=None, constraints=None):
     if k == 'for':
         return ForLoopPT(sub(t['body']), t['idx'], (expr_arg(t['start']), expr_arg(t['stop']), expr_arg(t['step'])), **kw)
     if k == 'map':
+        if 'cm' in t:
+            kw['channel_mapping'] = dict(t['cm'])       # {} ("declared as empty") or a real mapping; absent = not declared
         return MappingPT(sub(t['body']), parameter_mapping={x: expr_str(e) for x, e in t['m'].items()},
                          allow_partial_parameter_mapping=True, **kw)
     if k == 'multi':
@@ -744,7 +988,7 @@ def build(t, singles=None, constraints=None):
     if k == 'constr':
         cs = ['(%s) <= (%s)' % (expr_str(l), expr_str(r)) for l, r in t['cs']]
         if t['body']['t'] in ('func', 'table', 'point', 'seq', 'rep', 'for', 'map', 'multi') and not t['body'].get('wrapseq'):
-            return build(t['body'], singles, constraints=cs)
+            return build(t['body'], singles, constraints=cs, memo=memo)
         return SequencePT(sub(t['body']), parameter_constraints=cs)     # same program children as the body
     if k == 'single':
         obj = sub(t['body'])
@@ -764,16 +1008,16 @@ def build_case(case):
     """-> (root template, set for to_single_waveform, extra create_program keyword arguments)"""
     from qupulse.pulses import MappingPT
     singles = []
-    pt = build(case['tpl'], singles)
+    pt = build(case['tpl'], singles, memo={} if case.get('alias') else None)
     kw = {}
     if case.get('rootmap'):
         mm = {k: v for k, v in (case.get('measmap') or {}).items() if k in pt.measurement_names and v is not None}
         pt = MappingPT(pt, channel_mapping=dict(case['rootmap']), measurement_mapping=mm,
                        allow_partial_parameter_mapping=True)
-        if case.get('cpmap'):
-            kw['channel_mapping'] = dict(case['cpmap'])
         names = pt.measurement_names
         kw['measurement_mapping'] = {n: (None if (case.get('measmap') or {}).get(n, 1) is None else n + '_x') for n in names}
+    if case.get('cpmap'):
+        kw['channel_mapping'] = dict(case['cpmap'])
     if singles:
         kw['to_single_waveform'] = set(singles)
     if case.get('volatile'):
@@ -996,46 +1240,80 @@ def channels_of(t):
         return set().union(*[channels_of(c) for c in t['subs']])
     if k == 'arith':
         return channels_of(t['lhs']) | channels_of(t['rhs'])
+    if k == 'map' and t.get('cm'):
+        return {t['cm'].get(c, c) for c in channels_of(t['body'])} - {None}
     return channels_of(t['body'])
 
 
-def g_pt(t, ids):
+def all_channel_names(case):
+    """every channel name of the case (atoms, sources and targets of channel mappings); the model numbers them in
+    their sort order (qupulse sorts the parts of a parallel waveform by channel name)"""
+    acc = set()
+
+    def walk(t):
+        k = t['t']
+        if k == 'const':
+            acc.update(t['v'])
+        elif k in ('func', 'point'):
+            acc.update(t['ch'])
+        elif k == 'table':
+            acc.update(t['chans'])
+        for a, b in (t.get('cm') or {}).items():
+            acc.add(a)
+            if b is not None:
+                acc.add(b)
+        for c in t.get('subs', []):
+            walk(c)
+        for key in ('body', 'lhs', 'rhs'):
+            if key in t:
+                walk(t[key])
+    walk(c04_spec.root_tpl(case))
+    return {n: i for i, n in enumerate(sorted(acc))}
+
+
+def g_cm(cm, cids):
+    return vlib.glist(lambda ab: '(%s, %s)' % (gZ(cids[ab[0]]), 'None' if ab[1] is None else '(Some %s)' % gZ(cids[ab[1]])),
+                      sorted((cm or {}).items()))
+
+
+def g_pt(t, ids, cids):
     k = t['t']
-    rank = lambda: gZ(int(min(channels_of(t))[1:3]))
+    chl = lambda names: vlib.glist(lambda c: '(Some %s)' % gZ(cids[c]), names)
     if k == 'const':
-        return '(PAtom KConst %s %s)' % (rank(), g_expr(t['d'], ids))
+        return '(PAtom KConst %s %s)' % (chl(list(t['v'])), g_expr(t['d'], ids))
     if k == 'func':
-        return '(PAtom KFunc %s %s)' % (rank(), g_expr(t['d'], ids))
+        return '(PAtom KFunc %s %s)' % (chl(t['ch']), g_expr(t['d'], ids))
     if k == 'table':
-        return '(PTable %s %s)' % (rank(), vlib.glist(lambda ts: vlib.glist(lambda e: g_expr(e, ids), ts),
-                                                       [t['chans'][c] for c in t['chans']]))
+        return '(PTable %s)' % vlib.glist(lambda c: '(Some %s, %s)' % (gZ(cids[c]), vlib.glist(lambda e: g_expr(e, ids), t['chans'][c])),
+                                          list(t['chans']))
     if k == 'point':
-        return '(PTable %s [%s])' % (rank(), vlib.glist(lambda e: g_expr(e, ids), t['times']))
+        times = vlib.glist(lambda e: g_expr(e, ids), t['times'])
+        return '(PTable %s)' % vlib.glist(lambda c: '(Some %s, %s)' % (gZ(cids[c]), times), t['ch'])
     if k == 'seq':
-        return '(PSeq %s)' % vlib.glist(lambda c: g_pt(c, ids), t['subs'])
+        return '(PSeq %s)' % vlib.glist(lambda c: g_pt(c, ids, cids), t['subs'])
     if k == 'rep':
-        return '(PRep %s %s)' % (g_expr(t['count'], ids), g_pt(t['body'], ids))
+        return '(PRep %s %s)' % (g_expr(t['count'], ids), g_pt(t['body'], ids, cids))
     if k == 'for':
         return '(PFor %d%%N %s %s %s %s)' % (ids[t['idx']], g_expr(t['start'], ids), g_expr(t['stop'], ids),
-                                             g_expr(t['step'], ids), g_pt(t['body'], ids))
+                                             g_expr(t['step'], ids), g_pt(t['body'], ids, cids))
     if k == 'map':
-        return '(PMap %s %s)' % (vlib.glist(lambda xe: '(%d%%N, %s)' % (ids[xe[0]], g_expr(xe[1], ids)), list(t['m'].items())),
-                                 g_pt(t['body'], ids))
+        return '(PMap %s %s %s)' % (vlib.glist(lambda xe: '(%d%%N, %s)' % (ids[xe[0]], g_expr(xe[1], ids)), list(t['m'].items())),
+                                    g_cm(t.get('cm'), cids), g_pt(t['body'], ids, cids))
     if k == 'multi':
         d = t.get('declared')
         return '(PMulti %s %s)' % ('None' if d is None else '(Some %s)' % g_expr(d, ids),
-                                   vlib.glist(lambda c: g_pt(c, ids), t['subs']))
+                                   vlib.glist(lambda c: g_pt(c, ids, cids), t['subs']))
     if k == 'arith':
-        return '(PArith %s %s)' % (g_pt(t['lhs'], ids), g_pt(t['rhs'], ids))
+        return '(PArith %s %s)' % (g_pt(t['lhs'], ids, cids), g_pt(t['rhs'], ids, cids))
     if k == 'wrap':
-        return '(PWrap %s)' % g_pt(t['body'], ids)
+        return '(PWrap %s)' % g_pt(t['body'], ids, cids)
     if k == 'rev':
-        return '(PRev %s)' % g_pt(t['body'], ids)
+        return '(PRev %s)' % g_pt(t['body'], ids, cids)
     if k == 'constr':
         return '(PConstr %s %s)' % (vlib.glist(lambda lr: '(%s, %s)' % (g_expr(lr[0], ids), g_expr(lr[1], ids)), t['cs']),
-                                    g_pt(t['body'], ids))
+                                    g_pt(t['body'], ids, cids))
     if k == 'single':
-        return '(PSingle %s)' % g_pt(t['body'], ids)
+        return '(PSingle %s)' % g_pt(t['body'], ids, cids)
     raise ValueError(k)
 
 
@@ -1055,7 +1333,7 @@ def to_coq(case, obs):
     else:
         prog = '(IProg %s %s %s)' % (gQ(F(pr['loop'])), 'None' if pr['wf'] is None else '(Some %s)' % gQ(F(pr['wf'])),
                                      gQ(F(pr['pieces'])))
-    return '(CTpl %s %s %s %s)' % (g_pt(case['tpl'], ids), env, sym, prog)
+    return '(CTpl %s %s %s %s)' % (g_pt(c04_spec.root_tpl(case), ids, all_channel_names(case)), env, sym, prog)
 
 
 # ---------------------------------------------------------------------------------------------------------------------
